@@ -4,12 +4,14 @@ seeded from /repo/testkeys (corpus/C09/<target>/, built by make_corpus.py); mini
 finding live in corpus/C09/<target>/regress/ and are replayed on every run."""
 
 
-def T(name, src, quick_secs, rate, max_len=8192, timeout=10, **kw):
+def T(name, src, quick_secs, rate, max_len=8192, timeout=10, seeds=0, **kw):
     d = dict(name=name, src=['props/C09/' + src], engine='libfuzzer', corpus=['corpus/C09/' + name], max_len=max_len,
              timeout=timeout, replay_timeout=timeout + 15, hang_is_violation=True, fuzz_args=['-close_fd_mask=1', '-len_control=%d' % (0 if max_len > 8192 else 50)],
+             # seeds = number of generated closure seeds (make_tail_time_seeds.py / make_key_cross_seeds.py; tiny, rejected early): every
+             # worker replays them first, so they are added to the execution budget instead of eating the mutation budget.
              # quick tier: bounded by executions (rate = execs/s of one worker on an idle core x nominal seconds); the time
              # limit is twice the nominal duration so that a loaded machine still gets most of the executions.
-             quick=dict(secs=2 * quick_secs, runs=rate * quick_secs, shards=16), thorough=dict(secs=180, shards=16))
+             quick=dict(secs=2 * quick_secs, runs=rate * quick_secs + seeds, shards=16), thorough=dict(secs=180, shards=16))
     # note: the per-case alarm armed by vf.h (VF_TARGET timeout) must be >= libFuzzer's -timeout, see the targets
     d.update(kw)
     return d
@@ -27,14 +29,14 @@ PROP = dict(
         T('c09_x509_cert', 'x509_cert.cc', 10, 350, max_len=70000),   # > 64 KiB: 16-bit psSize_t wrap with the bytes really present
         T('c09_x509_pem_bundle', 'x509_pem_bundle.cc', 7, 130),
         T('c09_crl', 'crl.cc', 8, 320, max_len=70000),
-        T('c09_ocsp_response', 'ocsp_response.cc', 8, 200, max_len=70000),
-        T('c09_pkcs8', 'pkcs8.cc', 6, 430, timeout=60, wraps=['psSha1Final']),
+        T('c09_ocsp_response', 'ocsp_response.cc', 8, 200, max_len=70000, seeds=770),
+        T('c09_pkcs8', 'pkcs8.cc', 6, 430, timeout=60, wraps=['psSha1Final'], seeds=95),
         T('c09_pkcs12', 'pkcs12.cc', 8, 220, timeout=60, wraps=['psSha1Final']),
-        T('c09_privkey_any', 'privkey_any.cc', 7, 500, timeout=60, wraps=['psSha1Final']),
+        T('c09_privkey_any', 'privkey_any.cc', 7, 500, timeout=60, wraps=['psSha1Final'], seeds=540),
         T('c09_pubkey_any', 'pubkey_any.cc', 7, 1100),
         T('c09_dh_params', 'dh_params.cc', 4, 2700),
         T('c09_pem_decode', 'pem_decode.cc', 6, 2000),
-        T('c09_load_keys_mem', 'load_keys_mem.cc', 8, 560, timeout=60, wraps=['psSha1Final']),
+        T('c09_load_keys_mem', 'load_keys_mem.cc', 8, 560, timeout=60, wraps=['psSha1Final'], seeds=70),
         # structured bundles (2..6 pool certificates, any order) through the chain re-ordering loaders
         T('c09_cert_bundle', 'cert_bundle.cc', 4, 400),
     ],
